@@ -466,15 +466,29 @@ impl Link {
         let do_rand = self.rand_partition(global_config.message_loss(), rand);
         match (self.state_a_b, self.state_b_a) {
             (State::Healthy, _) | (_, State::Healthy) if do_rand => {
-                self.state_a_b = State::RandPartition;
-                self.state_b_a = State::RandPartition;
+                // Only healthy directions fail at random. A direction that
+                // was explicitly partitioned (`partition_oneway`) must stay
+                // explicitly partitioned, otherwise the random repair below
+                // would silently undo the explicit partition.
+                if matches!(self.state_a_b, State::Healthy) {
+                    self.state_a_b = State::RandPartition;
+                }
+                if matches!(self.state_b_a, State::Healthy) {
+                    self.state_b_a = State::RandPartition;
+                }
 
                 self.sent.clear();
             }
             (State::RandPartition, _) | (_, State::RandPartition)
                 if self.rand_repair(global_config.message_loss(), rand) =>
             {
-                self.release();
+                // Repair only what failed at random.
+                if matches!(self.state_a_b, State::RandPartition) {
+                    self.state_a_b = State::Healthy;
+                }
+                if matches!(self.state_b_a, State::RandPartition) {
+                    self.state_b_a = State::Healthy;
+                }
             }
             _ => {}
         }
